@@ -62,7 +62,21 @@ def main():
             rc2, o2 = sh("cargo nextest run --workspace --no-fail-fast --tool-config-file pb:/w/lib/nextest.toml --profile pb --test-threads 12 --offline 2>&1 | tail -15", timeout=7200)
             msum = re.search(r"(\d+) tests run: (\d+) passed.*?(\d+) failed", o2)
             suite_ok = bool(msum) and int(msum.group(2)) >= 564 and int(msum.group(3)) <= 1 and ("ssao_bias" in o2 or int(msum.group(3)) == 0)
-            failed_names = re.findall(r"FAIL \[.*?\] \(\d+/\d+\) (.*)", o2)
+            failed_names = re.findall(r"(?:FAIL|SIGTERM|TIMEOUT) \[.*?\] \(\d+/\d+\) (.*)", o2)
+            # wall-clock tests flake when other builds load the machine: re-run just those, alone
+            FLAKY = ("tree_import_cache", "tree_import_nocache", "big_linear", "small_linear")
+            others = sorted(set(n for n in failed_names if "ssao_bias" not in n))
+            if not suite_ok and msum and others and all(any(f in n for f in FLAKY) for n in others):
+                again_ok = True
+                for n in others:
+                    crate_n, test_n = n.split()[0], n.split()[-1]
+                    r3, o3 = sh("cargo nextest run -p %s --offline --tool-config-file pb:/w/lib/nextest.toml --profile pb --test-threads 1 -E 'test(=%s)' 2>&1 | tail -5" % (crate_n, test_n), timeout=1800)
+                    if not re.search(r"1 passed", o3):
+                        r3, o3 = sh("cargo nextest run -p %s --offline --tool-config-file pb:/w/lib/nextest.toml --profile pb --test-threads 1 -E 'test(=%s)' 2>&1 | tail -5" % (crate_n, test_n), timeout=1800)
+                    again_ok = again_ok and bool(re.search(r"1 passed", o3))
+                if again_ok and int(msum.group(2)) + len(others) >= 564:
+                    suite_ok = True
+                    o2 += "\n(re-run alone and passed: %s)" % others
             reset()
             verdict = clean_pass and patched_fail and suite_ok
             print("%s-%d: clean_demo_pass=%s patched_demo_fail=%s suite_ok=%s (%s) failed=%s  [%.0fs]" % (pid, k, clean_pass, patched_fail, suite_ok, msum.group(0) if msum else o2[-200:], sorted(set(failed_names)), time.time() - t0), flush=True)
